@@ -54,7 +54,12 @@ class Mean(Aggregation):
         # no observation is NaN, as in pandas
         if isinstance(counts, Number) and counts == 0:
             return float('nan')
-        return totals / counts
+        result = totals / counts
+        if hasattr(result, 'where'):
+            # rounding can leave a residue in a total from which every
+            # observation has been subtracted again: residue / 0 is inf
+            result = result.where(counts > 0)
+        return result
 
     def initial(self, new):
         s, c = new.sum(), new.count()
@@ -554,7 +559,7 @@ class GroupbyMean(GroupbyAggregation):
         counts = counts.add(g.count(), fill_value=0)
         totals.index.name = acc[0].index.name
         counts.index.name = acc[1].index.name
-        return (totals, counts), totals / counts
+        return (totals, counts), self._mean(totals, counts)
 
     def on_old(self, acc, old, grouper=None):
         totals, counts = acc
@@ -563,7 +568,13 @@ class GroupbyMean(GroupbyAggregation):
         counts = counts.sub(g.count(), fill_value=0)
         totals.index.name = acc[0].index.name
         counts.index.name = acc[1].index.name
-        return (totals, counts), totals / counts
+        return (totals, counts), self._mean(totals, counts)
+
+    @staticmethod
+    def _mean(totals, counts):
+        # rounding can leave a residue in the total of a group from which
+        # every observation has been subtracted again: residue / 0 is inf
+        return (totals / counts).where(counts > 0)
 
     def initial(self, new, grouper=None):
         if hasattr(grouper, 'iloc'):
